@@ -18,6 +18,10 @@
 (* ref: what the embedded path refers to on the host                       *)
 (*   "file"     an existing file or directory                              *)
 (*   "child"    a non-existing name below an existing directory            *)
+(*   "deep"     a non-existing name two or more missing levels below an    *)
+(*              existing directory                                         *)
+(*   "long"     an existing file whose absolute path is longer than 255    *)
+(*              characters (every single component is short)               *)
 (*   "package"  a source file of the installed package                     *)
 (*   "nowhere"  no component below / exists                                *)
 (*   "none"     (shape = plain)                                            *)
@@ -29,11 +33,11 @@
 EXTENDS Integers, Sequences, FiniteSets, TLC
 
 Shapes == {"plain", "bare", "quoted", "trailing", "leading", "keyeq", "repr", "colon"}
-Refs == {"file", "child", "package", "nowhere", "none"}
+Refs == {"file", "child", "deep", "long", "package", "nowhere", "none"}
 Words == {w \in [shape : Shapes, ref : Refs] : (w.shape = "plain") <=> (w.ref = "none")}
 
 StartsWithPath(w) == w.shape \in {"bare", "quoted", "trailing"}
-Resolves(w) == w.ref \in {"file", "child", "package"}     \* some ancestor below / exists
+Resolves(w) == w.ref \in {"file", "child", "deep", "long", "package"}     \* some ancestor below / exists
 
 \* outcome of sanitize_paths on one word
 Sanitized(w) ==
@@ -76,7 +80,7 @@ WriteOut == /\ pcS = "run" /\ sinks' = {[shape |-> w.shape, ref |-> w.ref, out |
             /\ pcS' = "done" /\ UNCHANGED log
 SNext == (\E s \in Sources : Emit(s)) \/ WriteOut
 SSpec == SInit /\ [][SNext]_svars
-NoLeakInSinks == \A s \in sinks : ~(s.out = "kept" /\ s.shape # "plain" /\ s.ref \in {"file", "child", "package"})
+NoLeakInSinks == \A s \in sinks : ~(s.out = "kept" /\ s.shape # "plain" /\ s.ref \in {"file", "child", "deep", "long", "package"})
 
 Small == Cardinality(log) <= 3
 ASSUME SafeShapesNeverLeak /\ UnsafeShapesAlwaysLeak
